@@ -115,9 +115,18 @@ def register(reg):
     lock = args[0]
     name = ex.lock_name(st, lock)
     blocking = args[1] if len(args) > 1 else kwargs.get('blocking', VBool(True))
+    timeout = args[2] if len(args) > 2 else kwargs.get('timeout')
     out = []
     for s, b in ex.truth_branch(st, blocking):
-      if b:
+      if b and timeout is not None:
+        # a blocking acquire with a timeout: either the lock was obtained or the wait ran out (returns False)
+        if name not in s.locks or lock.cls == 'rlock':
+          got = s.fork()
+          got.locks = got.locks + (name,)
+          ex.on_acquire(got, lock, name)
+          out.append((got, VBool(True)))
+        out.append((s, VBool(False)))
+      elif b:
         if name in s.locks and lock.cls != 'rlock':
           from pyvc.state import Obligation
           ex.ctx.obligations.append(Obligation('%s/lock.self_deadlock@%s' % (ex.ctx.unit, name), 'lock', s.pc,
